@@ -77,6 +77,41 @@ namespace {
     std::vector<std::vector<double>> e2_cprobs; ///< c.d.f. cumul probs associated to E2 sampling for each E1 sample
   };
 
+  /// Maximum number of energy samples accepted from a table header
+  /// (the distributed tables use 1000 samples; this bounds the memory a header can claim)
+  const unsigned int MAX_NSAMPLES = 100000;
+
+  /// Check the header of a tabulated probability file
+  void check_tab_header(const tabulated_prob_type & tab_, const std::string & where_)
+  {
+    if (!std::isfinite(tab_.esum_max) or !std::isfinite(tab_.e_min[0]) or !std::isfinite(tab_.e_max[0])) {
+      throw std::logic_error(where_ + ": Invalid (non finite) energy value!");
+    }
+    if (tab_.nsamples < 2 or tab_.nsamples > MAX_NSAMPLES) {
+      throw std::logic_error(where_ + ": Invalid number of energy samples [" + std::to_string(tab_.nsamples) + "]!");
+    }
+    return;
+  }
+
+  /// Check an array of cumulative probabilities: non decreasing values in [0,1], ending at 1
+  void check_cdf_array(const std::vector<double> & cprobs_, const std::string & where_)
+  {
+    if (cprobs_.empty()) {
+      throw std::logic_error(where_ + ": Empty array of cumulative probabilities!");
+    }
+    double previous = 0.0;
+    for (const double cprob : cprobs_) {
+      if (!(cprob >= previous and cprob <= 1.0)) {
+        throw std::logic_error(where_ + ": Invalid cumulative probability [" + std::to_string(cprob) + "]!");
+      }
+      previous = cprob;
+    }
+    if (cprobs_.back() != 1.0) {
+      throw std::logic_error(where_ + ": Cumulative probabilities do not end at 1!");
+    }
+    return;
+  }
+
   /// \brief p.d.f. interpolator
   struct pdf_interpolator_type
   {
@@ -439,6 +474,7 @@ namespace bxdecay0 {
         if (_pimpl_->tab_prob.e_min[0] < 0.0 or _pimpl_->tab_prob.e_min[0] >= _pimpl_->tab_prob.e_max[0]) {
           throw std::logic_error("bxdecay0::dbd_gA::_load_tabulated_pdf_: Invalid E range!");
         }
+        check_tab_header(_pimpl_->tab_prob, "bxdecay0::dbd_gA::_load_tabulated_pdf_");
 
         _pimpl_->tab_prob.e_nsamples[0] = _pimpl_->tab_prob.nsamples;
         _pimpl_->tab_prob.e_nsamples[1] = _pimpl_->tab_prob.nsamples;
@@ -484,8 +520,8 @@ namespace bxdecay0 {
       {
         unsigned int n1 = _pimpl_->tab_prob.e_nsamples[0];
         unsigned int n2 = _pimpl_->tab_prob.e_nsamples[1];
-        if (prob_index == 0) {
-          _pimpl_->tab_prob.prob.reserve(n1 * n2);
+        if (e2_pdf_count >= (int) _pimpl_->tab_prob.nsamples) {
+          throw std::logic_error("bxdecay0::dbd_gA::_load_tabulated_pdf_: Too many lines of p.d.f. values!");
         }
         unsigned int e2_expected_samples = _pimpl_->tab_prob.nsamples - e2_pdf_count;
         unsigned int e2_sample_count     = 0;
@@ -506,6 +542,10 @@ namespace bxdecay0 {
                                    + std::to_string(prob) + "] at line #" + std::to_string(nlines) + "!");
           }
           e2_sample_count++;
+          if (e2_sample_count > e2_expected_samples) {
+            throw std::logic_error(
+                "bxdecay0::dbd_gA::_load_tabulated_pdf_: expected vs effective E2 prob count match issue!");
+          }
           int index1 = prob_index / n2;
           int index2 = prob_index % n2;
           double e1  = _pimpl_->tab_prob.e_samples[0][index1];
@@ -552,6 +592,14 @@ namespace bxdecay0 {
         }
         break;
       }
+    }
+    if (!parsed_energy_sampling_header or e2_pdf_count != (int) _pimpl_->tab_prob.nsamples
+        or _pimpl_->tab_prob.prob.size()
+               != (std::size_t) _pimpl_->tab_prob.e_nsamples[0] * _pimpl_->tab_prob.e_nsamples[1]) {
+      throw std::logic_error("bxdecay0::dbd_gA::_load_tabulated_pdf_: Incomplete table of p.d.f. values!");
+    }
+    if (!(_pimpl_->tab_prob.prob_max > 0.0) or !std::isfinite(_pimpl_->tab_prob.prob_max)) {
+      throw std::logic_error("bxdecay0::dbd_gA::_load_tabulated_pdf_: Invalid maximum p.d.f. value!");
     }
     if (debug) {
       std::cerr << "[debug] bxdecay0::dbd_gA::_load_tabulated_pdf_: Energy sampling step = "
@@ -659,6 +707,7 @@ namespace bxdecay0 {
         if (_pimpl_->tab_prob.e_min[0] < 0.0 or _pimpl_->tab_prob.e_min[0] >= _pimpl_->tab_prob.e_max[0]) {
           throw std::logic_error("bxdecay0::dbd_gA::_load_tabulated_cdf_opt_: Invalid E range!");
         }
+        check_tab_header(_pimpl_->tab_prob, "bxdecay0::dbd_gA::_load_tabulated_cdf_opt_");
 
         _pimpl_->tab_prob.energies.reserve(_pimpl_->tab_prob.nsamples);
         _pimpl_->tab_prob.e_min[1] = _pimpl_->tab_prob.e_min[0];
@@ -699,6 +748,11 @@ namespace bxdecay0 {
       if (!parsed_e1_cdf) {
         std::istringstream line_iss(raw_line);
         load_optimized_cdf_array(raw_line, _pimpl_->tab_prob.e1_cprobs);
+        if (_pimpl_->tab_prob.e1_cprobs.size() != _pimpl_->tab_prob.nsamples) {
+          throw std::logic_error(
+              "bxdecay0::dbd_gA::_load_tabulated_cdf_opt_: expected vs effective E1 cprob count match issue!");
+        }
+        check_cdf_array(_pimpl_->tab_prob.e1_cprobs, "bxdecay0::dbd_gA::_load_tabulated_cdf_opt_");
         parsed_e1_cdf = true;
         // Prepare the number of e2 energy samples for a c.d.f. probs line:
         _pimpl_->tab_prob.e2_cprobs.reserve(_pimpl_->tab_prob.e1_cprobs.size());
@@ -715,13 +769,15 @@ namespace bxdecay0 {
 
       // Load/parse a line of E2 cumulative probabilities per E1 sample:
       {
+        if (e2_cdf_count >= (int) _pimpl_->tab_prob.nsamples) {
+          throw std::logic_error("bxdecay0::dbd_gA::_load_tabulated_cdf_opt_: Too many lines of c.d.f. values!");
+        }
         {
           static std::vector<double> empty;
           _pimpl_->tab_prob.e2_cprobs.push_back(empty);
         }
         std::vector<double> & cdf_probs  = _pimpl_->tab_prob.e2_cprobs.back();
         unsigned int e2_expected_samples = _pimpl_->tab_prob.nsamples - e2_cdf_count;
-        cdf_probs.reserve(e2_expected_samples);
         load_optimized_cdf_array(raw_line, cdf_probs);
 
         if (debug) {
@@ -734,6 +790,7 @@ namespace bxdecay0 {
           throw std::logic_error(
               "bxdecay0::dbd_gA::_load_tabulated_cdf_opt_: expected vs effective E2 cprob count match issue!");
         }
+        check_cdf_array(cdf_probs, "bxdecay0::dbd_gA::_load_tabulated_cdf_opt_");
         e2_cdf_count++;
         if (debug) {
           std::cerr << "[debug] bxdecay0::dbd_gA::_load_tabulated_cdf_opt_: E2 cdf count #" << e2_cdf_count << " has "
@@ -753,6 +810,9 @@ namespace bxdecay0 {
         break;
       }
     } // while getline loop
+    if (!parsed_e1_cdf or e2_cdf_count != (int) _pimpl_->tab_prob.nsamples) {
+      throw std::logic_error("bxdecay0::dbd_gA::_load_tabulated_cdf_opt_: Incomplete table of c.d.f. values!");
+    }
     if (debug) {
       std::cerr << "[debug] bxdecay0::dbd_gA::_load_tabulated_cdf_opt_: Energy sampling step = "
                 << std::to_string(_pimpl_->tab_prob.energy_step) << " MeV" << std::endl;
